@@ -54,7 +54,47 @@ def instance_census() -> Dict[str, int]:
         mod = getattr(t, "__module__", "") or ""
         if mod.startswith("semantiva") or mod.startswith("verif_ext") or mod == "concurrent.futures._base":
             c[f"{t.__name__}"] += 1
+        elif mod.split(".")[0] in RESOURCE_MODULES:
+            # library objects that ARE resources: loggers and handlers, threads, open files, sockets, processes.
+            # (Instances of inspect / weakref / _abc / collections types grow with every generated class and are
+            # consequences of the recorded registry growth; they are not counted separately.)
+            c[f"{mod}.{t.__name__}"] += 1
     return dict(c)
+
+
+RESOURCE_MODULES = {"logging", "threading", "_io", "io", "subprocess", "socket", "selectors", "tempfile", "multiprocessing",
+                    "asyncio", "queue", "sqlite3", "mmap"}
+
+
+def container_census(live: Dict[str, Any] | None = None) -> Dict[str, int]:
+    """Sizes of the process-wide containers of the framework: every module-level and class-level dict / list / set /
+    deque of every loaded semantiva.* module (the component registry's categories are measured by registry_sizes)."""
+    import sys
+
+    out: Dict[str, int] = {}
+    kinds = (dict, list, set, collections.deque)
+    for mname, mod in list(sys.modules.items()):
+        if not mname.startswith("semantiva") or mod is None:
+            continue
+        for name, val in list(vars(mod).items()):
+            if isinstance(val, kinds) and not name.startswith("__"):
+                out[f"{mname}.{name}"] = len(val)
+            elif isinstance(val, type) and getattr(val, "__module__", None) == mname:
+                for an, av in list(vars(val).items()):
+                    if isinstance(av, kinds) and not an.startswith("__"):
+                        out[f"{mname}.{val.__qualname__}.{an}"] = len(av)
+    for name, obj in (live or {}).items():      # containers owned by the long-lived objects of this way of repeating
+        try:
+            out[name] = len(obj)
+        except TypeError:
+            pass
+    import logging
+    out["logging.Logger.manager.loggerDict"] = len(logging.Logger.manager.loggerDict)
+    import atexit
+    ncb = getattr(atexit, "_ncallbacks", None)
+    if callable(ncb):
+        out["atexit.callbacks"] = ncb()
+    return out
 
 
 def one_mode(job) -> Dict[str, Any]:
@@ -73,11 +113,24 @@ def one_mode(job) -> Dict[str, Any]:
 
     runner = None
     cleanup = lambda: None
+    live: Dict[str, Any] = {}
     if mode == "reused":
         p = Pipeline(nodes)
         runner = lambda: p.process(payload())
     elif mode == "fresh":
         runner = lambda: Pipeline(nodes).process(payload())
+    elif mode in ("fresh-traced", "reused-traced"):
+        import shutil
+        import tempfile
+        from semantiva.trace.drivers.jsonl import JsonlTraceDriver
+
+        tdir = tempfile.mkdtemp(prefix="vc18-")
+        cleanup = lambda: shutil.rmtree(tdir, ignore_errors=True)
+        if mode == "fresh-traced":      # a new Pipeline AND a new trace driver per run
+            runner = lambda: Pipeline(nodes, trace=JsonlTraceDriver(tdir, detail="hash")).process(payload())
+        else:
+            p3 = Pipeline(nodes, trace=JsonlTraceDriver(tdir, detail="hash"))
+            runner = lambda: p3.process(payload())
     elif mode == "launch":
         # exactly what cli._run does: one Pipeline object, set_run_metadata + process per planned run
         p2 = Pipeline(nodes)
@@ -93,6 +146,7 @@ def one_mode(job) -> Dict[str, Any]:
         from semantiva.logger import Logger
 
         tr = im.InMemorySemantivaTransport()
+        live["InMemorySemantivaTransport._queues(channel-table)"] = tr._queues
         lg = Logger()
         master = QueueSemantivaOrchestrator(transport=tr, logger=lg)
         stop = threading.Event()
@@ -118,7 +172,7 @@ def one_mode(job) -> Dict[str, Any]:
             while done < cp:
                 runner()
                 done += 1
-            samples[cp] = {"registry": registry_sizes(), "instances": instance_census()}
+            samples[cp] = {"registry": registry_sizes(), "instances": instance_census(), "containers": container_census(live)}
     finally:
         cleanup()
     return {"prog": prog, "mode": mode, "samples": samples}
@@ -135,6 +189,10 @@ def growth(r: Dict[str, Any], a: int, b: int) -> List[tuple]:
         d = sb["registry"].get(cat, 0) - sa["registry"].get(cat, 0)
         if d != 0:
             out.append(("registry", cat, d))
+    for cname in sorted(set(sa["containers"]) | set(sb["containers"])):
+        d = sb["containers"].get(cname, 0) - sa["containers"].get(cname, 0)
+        if d > 0:
+            out.append(("container", cname, d))
     for tname in sorted(set(sa["instances"]) | set(sb["instances"])):
         d = sb["instances"].get(tname, 0) - sa["instances"].get(tname, 0)
         if d > 2:           # small constant slack for gc timing (trusted measurement)
@@ -160,7 +218,7 @@ def check(tier: str) -> int:
     run.add_tlc(sens, count_states=False)
     cps = (20, 60, 180) if tier == "quick" else CHECKPOINTS
     progs = list(PROGRAMS) if tier == "thorough" else ["plain", "sweep-slice", "payload-io"]
-    jobs = [{"prog": p, "mode": m, "checkpoints": cps} for p in progs for m in ("reused", "fresh", "launch", "queue")]
+    jobs = [{"prog": p, "mode": m, "checkpoints": cps} for p in progs for m in ("reused", "fresh", "launch", "queue", "fresh-traced", "reused-traced")]
     results = []
     for chunk in pmap(modes_chunk, jobs, chunk=1, tasks_per_child=1):
         results += chunk
@@ -172,7 +230,7 @@ def check(tier: str) -> int:
         per_run = {}
         for kind, name, d in g:
             per_run[f"{kind}:{name}"] = round(d / (cps[2] - cps[1]), 2)
-            run.violation(f"{kind}-growth:{r['mode']}:{name}",
+            run.violation(f"{kind}-growth:{r['mode'].replace('-traced', '')}:{name}",      # traced variants: same way of repeating
                           f"program {r['prog']}, {r['mode']}: {kind} counter {name} grows by {d} between run {cps[1]} and run {cps[2]} "
                           f"({d / (cps[2] - cps[1]):.2f} per run) -- the cost of run N depends on N", {"prog": r["prog"], "mode": r["mode"]})
         run.extra.setdefault("growth_per_run", {})[f"{r['prog']}/{r['mode']}"] = per_run
